@@ -213,6 +213,44 @@ def clean_case_st(draw):
     return (kind, order, pc, draw(GH.cuts_st()))
 
 
+# ---- the caller's candidate list is used for a second protocol (a connection factory does this on every reconnect) -----------------
+
+
+def reuse_oracle(case) -> Info:
+    kind_of_stream, seed, n1, n2, kind = case
+    _ensure_loop()
+    h = ("H", 0, 0)
+    spec = (h, ("P",)) if seed % 2 else (("P",), h)
+    cls = meter_connection.SmartMeterMessagePayloadProtocol if kind == "payload" else meter_connection.SmartMeterMessageProtocol
+    delivered = []
+    candidates = make_readers(spec)  # ONE list object, owned by the caller
+    snapshot = list(candidates)
+    for round_, n in enumerate((n1, n2)):
+        if kind_of_stream == "hdlc":
+            msgs = resync.clean_frames(n, False, False, seed + round_, min_info=2, max_info=8)
+            stream, _ = resync.frames_tail(msgs, False, seed)
+            want = [ref_fields(f)["payload"] for f in msgs]
+        else:
+            msgs = resync.clean_readouts(n, seed + round_)
+            stream = b"".join(msgs)
+            want = [m[m.index(b"\n") + 1 : GP.end_line_pos(m)] for m in msgs]
+            want = [w for w in want if w]
+        q = asyncio.Queue()
+        proto = guarded(cls, q, candidates, what=cls.__name__)
+        for ch in GH.split(stream, ("fixed", 50, 0)):
+            guarded(proto.data_received, ch, what=f"{cls.__name__}.data_received")
+        items = drain(q)
+        got = items if kind == "payload" else [m.payload for m in items if m.payload]
+        if got != want:
+            fail(f"protocol #{round_ + 1} built from the same candidate list object: {len(want)} clean {kind_of_stream} messages sent, {len(got)} forwarded (caller's list now has {len(candidates)} of {len(snapshot)} readers)", sig="reused-candidate-list")
+        if candidates != snapshot:
+            fail(f"the caller's candidate list was modified by the protocol ({len(candidates)} of {len(snapshot)} readers left)", sig="reused-candidate-list")
+    return Info(nontrivial=True, classes=(f"reuse:{kind_of_stream}:{kind}",))
+
+
+reuse_st = st.tuples(st.sampled_from(["hdlc", "p1"]), st.integers(0, 10**6), st.integers(1, 6), st.integers(1, 6), st.sampled_from(["payload", "message"]))
+
+
 # ---- backlog: many messages enqueued while nothing consumes the queue -------------------------------------------------------------
 
 
@@ -260,7 +298,8 @@ def build() -> Check:
             "that became valid in chunk k. Non-trivial = >=2 candidates and selection at chunk >=1, or an invalid message precedes the "
             "first valid one in the selection chunk. clean: C02-domain HDLC streams and C05-domain P1 streams with candidate orders "
             "[HDLC,P1] and [P1,HDLC] (and the single matching reader): the payload queue equals every sent message's non-empty payload, "
-            "the message queue every sent message. backlog: 1..1500 small clean messages (boundaries 255/256/257/1025 forced) delivered in one or "
+            "the message queue every sent message. reused-list: two protocol instances built one after the other from the caller's same list object, "
+            "each fed a clean stream - both must forward everything and the caller's list must be left as it was. backlog: 1..1500 small clean messages (boundaries 255/256/257/1025 forced) delivered in one or "
             "several calls while nothing consumes the queue - afterwards the queue must hold every one of them, in order."
         ),
         assumptions=[
@@ -270,6 +309,7 @@ def build() -> Check:
         clauses=[
             HypClause("general", general_case_st, general_oracle, quick=5000, thorough=150000),
             HypClause("clean", clean_case_st, clean_oracle, quick=3000, thorough=60000),
+            HypClause("reused-list", reuse_st, reuse_oracle, quick=400, thorough=8000, doc="two protocols built one after the other from the caller's same candidate list"),
             HypClause("backlog", backlog_st, backlog_oracle, quick=150, thorough=3000, doc="1..1500 small messages enqueued before the queue is read"),
         ],
     )
